@@ -19,7 +19,7 @@ theorem C16_gate (g : Global) (node : Node) :
     (¬(g.allowSymlinks = false ∧ isLinkNode node = true) → ¬(g.ownerSet = true ∧ (ownerOf node).1 ≠ g.owner) →
        g.groupSet = true → (ownerOf node).2 ≠ g.group → gate g node = some .wrongGroup) ∧
     (¬(g.allowSymlinks = false ∧ isLinkNode node = true) → ¬(g.ownerSet = true ∧ (ownerOf node).1 ≠ g.owner) →
-       ¬(g.groupSet = true ∧ (ownerOf node).2 ≠ g.group) → gate g node = none) := by
+       ¬(g.groupSet = true ∧ (ownerOf node).2 ≠ g.group) → g.permsSet = false → gate g node = none) := by
   unfold gate
   refine ⟨?_, ?_, ?_, ?_⟩
   · intro h1 h2; simp [h1, h2]
@@ -33,14 +33,56 @@ theorem C16_gate (g : Global) (node : Node) :
     have b : (g.ownerSet && (ownerOf node).1 != g.owner) = false := by
       cases ho : g.ownerSet <;> simp_all
     simp [a, b, h3, h4]
-  · intro h1 h2 h3
+  · intro h1 h2 h3 hp
     have a : (!g.allowSymlinks && isLinkNode node) = false := by
       cases ha : g.allowSymlinks <;> cases hl : isLinkNode node <;> simp_all
     have b : (g.ownerSet && (ownerOf node).1 != g.owner) = false := by
       cases ho : g.ownerSet <;> simp_all
     have c : (g.groupSet && (ownerOf node).2 != g.group) = false := by
       cases hg : g.groupSet <;> simp_all
-    simp [a, b, c]
+    simp [a, b, c, hp]
+
+/-- the owner, group and symbolic-link decisions do not depend on whether `econf_requirePermissions`
+    is in force as well, nor on the bits it asks for: when one of the three rules refuses a file, the
+    gate gives the same code under every permission requirement (the permission checks come last) -/
+theorem C16_perms_irrelevant (g : Global) (node : Node) (ps : Bool) (pf pd : Nat) (e : Err)
+    (h : gate { g with permsSet := false } node = some e) :
+    gate { g with permsSet := ps, permsFile := pf, permsDir := pd } node = some e := by
+  unfold gate at h ⊢
+  simp only at h ⊢
+  split at h
+  · rename_i h1; simp only [h1, if_true]; exact h
+  · rename_i h1
+    simp only [h1, if_false]
+    split at h
+    · rename_i h2; simp only [h2, if_true]; exact h
+    · rename_i h2
+      simp only [h2, if_false]
+      split at h
+      · rename_i h3; simp only [h3, if_true]; exact h
+      · simp at h
+
+/-- the permission requirement itself: a file that passes the three rules is refused when it has none
+    of the required file bits, or its directory none of the required directory bits -/
+theorem C16_perms (g : Global) (node : Node) (h : gate { g with permsSet := false } node = none) (hp : g.permsSet = true) :
+    gate g node =
+      (if (modeOf node &&& g.permsFile) == 0 then some .wrongFilePermission
+       else if (DIRMODE &&& g.permsDir) == 0 then some .wrongDirPermission else none) := by
+  unfold gate at h ⊢
+  simp only at h
+  split at h
+  · cases h
+  · rename_i h1
+    split at h
+    · cases h
+    · rename_i h2
+      split at h
+      · cases h
+      · rename_i h3
+        have a : (!g.allowSymlinks && isLinkNode node) = false := by simpa using h1
+        have b : (g.ownerSet && (ownerOf node).1 != g.owner) = false := by simpa using h2
+        have c : (g.groupSet && (ownerOf node).2 != g.group) = false := by simpa using h3
+        simp only [a, b, c, Bool.false_eq_true, if_false, hp, Bool.true_and]
 
 /-- a refused file is neither shown to the callback nor opened, its content never reaches a result,
     and the read of that file ends with the specific code -/
@@ -81,6 +123,8 @@ theorem C16_first_refused (ctx : RdCtx) (s : RdState) (join python : Bool) (deli
 /-- non-vacuity: a foreign-owned symbolic link under "owner 0, no symlinks" is refused as a link -/
 example : gate { ownerSet := true, owner := 0, allowSymlinks := false } (.link [0x2f, 0x78] 4242 0) = some .fileIsSymLink ∧
     gate { ownerSet := true, owner := 0 } (.link [0x2f, 0x78] 4242 0) = some .wrongOwner ∧
-    gate { ownerSet := true, owner := 0 } (.file [] 0 7) = none := by decide
+    gate { ownerSet := true, owner := 0 } (.file [] 0 7) = none ∧
+    gate { ownerSet := true, owner := 0, permsSet := true, permsFile := 0o644, permsDir := 0o755 } (.file [] 4242 0) = some .wrongOwner ∧
+    gate { permsSet := true, permsFile := 0o001, permsDir := 0o755 } (.file [] 0 0) = some .wrongFilePermission := by decide
 
 end Econf
